@@ -2,11 +2,13 @@
    Only pinned statements; proofs are in Shapes/ReplyProofs.v. *)
 From ZV Require Import Shapes.Reply Shapes.Corpus.
 
-(* Of the tree as pinned (Reply<P> has no guard against an `error` member): the property is false. *)
-Theorem C04_refuted :
-  exists E P ms, has_member "error" ms /\ exists r, classify E P (JObj ms) = Success r.
+(* Of the tree as pinned (Reply<P> had no guard against an `error` member): the property is false. *)
+Theorem C04_refuted_before_b42f3c8 :
+  exists E P ms, has_member "error" ms /\
+                 decoder (SUntagged [vs_error_shape; E; reply_shape_unguarded P]) Direct (JObj ms)
+                 = Some (RAlt 2 (RStruct [RNone; RNone])).
 Proof.
   exists E_simple, P_unit, [("error", JStr "io.systemd.System")].
-  split; [left; reflexivity | eexists; vm_compute; reflexivity].
+  split; [left; reflexivity | vm_compute; reflexivity].
 Qed.
-Print Assumptions C04_refuted.
+Print Assumptions C04_refuted_before_b42f3c8.
